@@ -9,7 +9,7 @@ From VModel Require Import Composition CompositionLagrange CompositionMixed Comp
 From VModel Require Enforce EnforceLagrange.
 From VModel Require FFT Stark.
 From VProofs Require FFTSpec FFTEval FFTOffset FFTSegments StarkPoly StarkLagrangeRows.
-From VProofs Require Import ZpLaws CompositionBase CompositionIndex CompositionVerifier CompositionTable CompositionFFT CompositionValid CompositionLagrange CompositionLagrangeTable CompositionLagrangePoly CompositionMixed CompositionMixedWhole CompositionMixedInst CompositionLagrangeHonest ExtModel ExtConcrete CompositionExamples.
+From VProofs Require Import ZpLaws CompositionBase CompositionIndex CompositionVerifier CompositionTable CompositionFFT CompositionValid CompositionLagrange CompositionLagrangeTable CompositionLagrangePoly CompositionMixed CompositionMixedWhole CompositionMixedInst CompositionLagrangeHonest CompositionLagrangeFinal ExtModel ExtConcrete CompositionExamples.
 Import ListNotations.
 Local Open Scope nat_scope.
 
@@ -927,6 +927,160 @@ Theorem C17_lag_def_is_poly_honest :
            length Q <= length Lp /\ (forall x : F, lag_good O0 v x -> lag_def O0 n rou v Lp t rr lb x = peval O0 Q x).
 Proof. exact @lag_def_is_poly_honest. Qed.
 Print Assumptions C17_lag_def_is_poly_honest.
+
+(* ---- round 9 (1): the Lagrange capstone as ONE closed statement (multi-segment path, honest kernel column).  Every premise of
+        C17_composition_is_definition_lagrange_partial is instantiated from its theorem (table with the Lagrange hook;
+        comp_def_is_poly via C01; lag_def_is_poly_honest via C01 + C16; interp_fft_roundtrip via C09).
+        Conclusion: lagrange_evaluate and evaluate (with the hook `acc[step] += lag[step]`) succeed, CompositionPoly::new succeeds
+        with C09's FFT interpolation, and the committed columns recombine to ONE coefficient list Q at EVERY z and to
+        comp_def(z) + lag_def(z) at every z outside the trace domain and the Lagrange divisor zeros.
+        REMAINING hypotheses, same kind as C17_composition_is_definition_aux: root-of-unity relations + odd characteristic; trace
+        LDE rows (incl. the kernel column) = trace polynomials on the LDE coset; numerators of the ordinary constraints given as
+        coefficient lists vanishing on the enforced steps (validity) with quotient lengths <= m; the kernel column polynomial
+        interpolates the HONEST kernel column; |Lp|, m <= min(|ce|, num_cols * n); the ce coset avoids the trace domain and the
+        Lagrange divisor zeros. *)
+Theorem C17_composition_is_definition_lagrange :
+  forall (F : Type) (O0 : FOps F),
+         FLaws O0 ->
+         forall (n ceb ldeb r : nat) (offset : F) (rou : nat -> F) (wlde ginv : F),
+         n <> 0 ->
+         ceb <> 0 ->
+         r <> 0 ->
+         ldeb = ceb * r ->
+         cpow O0 wlde (lde_size n ldeb) = fone O0 ->
+         cpow O0 wlde r = wce n ceb rou ->
+         cpow O0 wlde ldeb = gtrace n rou ->
+         fmul O0 ginv (gtrace n rou) = fone O0 ->
+         StarkPoly.primitive_root O0 (gtrace n rou) n ->
+         forall (num_main : nat) (tmain : list F -> list F -> list F -> list F)
+           (taux : list F -> list F -> list F -> list F -> list F -> list F -> list F) (ppolys : list (list F))
+           (exemptions : nat) (tcoef : list F) (main_groups aux_groups : list BGroup) (rands : list F)
+           (tpolys apolys lde_main lde_aux : list (list F)),
+         (forall cur nxt pv : list F, length (tmain cur nxt pv) = num_main) ->
+         exemptions <= n ->
+         (forall p : list F, In p ppolys -> length p <> 0) ->
+         (forall p : list F, In p ppolys -> length p * (n / length p) = n) ->
+         (forall p : list F,
+          In p ppolys -> exists q : nat, fold_left Nat.max (map (length (A:=F)) ppolys) 0 = length p * q) ->
+         (forall p : list F, In p ppolys -> rou (length p * ceb) = cpow O0 (wce n ceb rou) (n / length p)) ->
+         (forall gr : BGroup,
+          In gr main_groups ->
+          div_ok n ceb (bg_div gr) /\ (forall c : BC, In c (bg_cs gr) -> bc_ok O0 n ceb ginv tpolys c)) ->
+         lde_rows_of O0 n ldeb offset wlde lde_main tpolys ->
+         forall (two_adicity K : nat) (rouk : nat -> F) (itw : list F),
+         ce_size n ceb = 2 ^ S K ->
+         S K <= two_adicity ->
+         rouk (S K) = wce n ceb rou ->
+         FFTSpec.root_cond O0 (S K) (wce n ceb rou) ->
+         FFT.get_inv_twiddles O0 two_adicity rouk (2 ^ S K) = Some itw ->
+         offset <> fzero O0 ->
+         fmul O0 (FFTSpec.two_pow_f O0 (S K)) (FFTOffset.n_inv O0 (S K)) = fone O0 ->
+         (forall i : nat, i < ce_size n ceb -> ~ In (ce_x O0 n ceb offset rou i) (Stark.domain O0 (gtrace n rou) n)) ->
+         forall num_cols m : nat,
+         m <= ce_size n ceb ->
+         m <= num_cols * n ->
+         n < ce_size n ceb ->
+         forall (N : list F) (Bm Rm Ba Ra : BGroup -> list F),
+         (forall gr : BGroup, In gr main_groups -> forall z : F, peval O0 (Bm gr) z = group_numer O0 tpolys gr z) ->
+         (forall gr : BGroup,
+          In gr main_groups ->
+          forall z : F, Stark.pprod O0 (Rm gr) z = fsub O0 (cpow O0 z (dv_a (bg_div gr))) (dv_b (bg_div gr))) ->
+         (forall i : nat, i < n - exemptions -> peval O0 N (cpow O0 (gtrace n rou) i) = fzero O0) ->
+         length N - (n - exemptions) <= m ->
+         (forall gr : BGroup,
+          In gr aux_groups ->
+          div_ok n ceb (bg_div gr) /\ (forall c : BC, In c (bg_cs gr) -> bc_ok O0 n ceb ginv apolys c)) ->
+         lde_rows_of O0 n ldeb offset wlde lde_aux apolys ->
+         (forall gr : BGroup, In gr aux_groups -> forall z : F, peval O0 (Ba gr) z = group_numer O0 apolys gr z) ->
+         (forall gr : BGroup,
+          In gr aux_groups ->
+          forall z : F, Stark.pprod O0 (Ra gr) z = fsub O0 (cpow O0 z (dv_a (bg_div gr))) (dv_b (bg_div gr))) ->
+         (forall z : F,
+          peval O0 N z =
+          rsum O0
+            (map (fun ca : F * F => fmul O0 (snd ca) (fst ca))
+               (combine (def_constraints O0 n rou tmain taux ppolys rands true tpolys apolys z) tcoef))) ->
+         Forall
+           (fun br : list F * list F =>
+            NoDup (snd br) /\
+            incl (snd br) (Stark.domain O0 (gtrace n rou) n) /\
+            (forall r0 : F, In r0 (snd br) -> peval O0 (fst br) r0 = fzero O0) /\
+            length (fst br) - length (snd br) <= m) (bs_of main_groups aux_groups true Bm Rm Ba Ra) ->
+         forall v : nat,
+         n = 2 ^ v ->
+         forall (Lp lde_lag rr : list F) (t : EnforceLagrange.LagTC) (lb : F),
+         length rr = v ->
+         length (EnforceLagrange.l_coef t) = v ->
+         length (EnforceLagrange.l_div t) = v ->
+         v < 64 ->
+         (forall i : nat,
+          i < n -> peval O0 Lp (cpow O0 (gtrace n rou) i) = nth i (StarkLagrangeRows.kernel_col O0 v rr) (fzero O0)) ->
+         length lde_lag = lde_size n ldeb ->
+         (forall j : nat,
+          j < lde_size n ldeb -> nth_error lde_lag j = Some (peval O0 Lp (fmul O0 (cpow O0 wlde j) offset))) ->
+         length Lp <= ce_size n ceb ->
+         length Lp <= num_cols * n ->
+         (forall i : nat, i < ce_size n ceb -> lag_good O0 v (ce_x O0 n ceb offset rou i)) ->
+         exists (lag Q evals : list F) (cols : list (list F)),
+           lagrange_evaluate O0 n ceb ldeb offset rou v lde_lag t rr lb = Some lag /\
+           evaluate O0 n ceb ldeb offset rou num_main tmain taux ppolys exemptions tcoef main_groups aux_groups rands
+             true lde_main lde_aux (lagrange_acc_of O0 lag) = Some evals /\
+           composition_poly_new n (interp_fft O0 two_adicity itw offset) evals num_cols = Some cols /\
+           (forall z : F, recombine O0 n (cp_evaluate_at O0 cols z) z = peval O0 Q z) /\
+           (forall z : F,
+            ~ In z (Stark.domain O0 (gtrace n rou) n) ->
+            lag_good O0 v z ->
+            recombine O0 n (cp_evaluate_at O0 cols z) z =
+            fadd O0
+              (comp_def O0 n rou tmain taux ppolys exemptions tcoef main_groups aux_groups rands true tpolys apolys z)
+              (lag_def O0 n rou v Lp t rr lb z)).
+Proof. exact @composition_is_definition_lagrange. Qed.
+Print Assumptions C17_composition_is_definition_lagrange.
+
+(* ---- round 9 (3): the verifier's evaluate_constraints for E != B (coq/Model/CompositionMixedWhole.v evaluate_constraints_mixed:
+        OOD frames and x in E; periodic polynomials, main value polynomials, all offsets and divisor constants in B, lifted by
+        E::from / polynom::eval::<B, E>) is the single-field evaluate_constraints over OE on the embedded data ... *)
+Theorem C17_verifier_evaluate_constraints_mixed_embeds :
+  forall (B E : Type) (OB : FOps B) (OE : FOps E) (emb : B -> E) (mul_base : E -> B -> E),
+         Emb OB OE emb mul_base ->
+         forall (n : nat) (rou : nat -> B) (num_main num_aux : nat) (tmainE : list E -> list E -> list E -> list E)
+           (tauxE : list E -> list E -> list E -> list E -> list E -> list E -> list E) (ppolys : list (list B))
+           (exemptions : nat) (tcoef : list E) (main_groups : list BGm) (aux_groups : list BGa)
+           (rands cur nxt : list E) (auxf : option (list E * list E)) (x : E),
+         evaluate_constraints_mixed OB OE emb n rou num_main num_aux tmainE tauxE ppolys exemptions tcoef main_groups
+           aux_groups rands cur nxt auxf x =
+         evaluate_constraints OE n (fun m : nat => emb (rou m)) num_main tmainE tauxE num_aux 
+           (map (map emb) ppolys) exemptions tcoef (map (embG emb) main_groups) (map (embGa emb) aux_groups) rands
+           (fun _ : E => None) cur nxt auxf x.
+Proof. exact @evaluate_constraints_mixed_embeds. Qed.
+Print Assumptions C17_verifier_evaluate_constraints_mixed_embeds.
+
+(* ... hence on the frame of the embedded trace polynomials at z it is comp_def over E with all base-field data embedded
+   (from C17_verifier_eval_agrees at F := E) *)
+Theorem C17_verifier_evaluate_constraints_ext :
+  forall (B E : Type) (OB : FOps B) (OE : FOps E),
+         FLaws OE ->
+         forall (emb : B -> E) (mul_base : E -> B -> E),
+         Emb OB OE emb mul_base ->
+         forall (n : nat) (rou : nat -> B) (num_main num_aux : nat) (tmainE : list E -> list E -> list E -> list E)
+           (tauxE : list E -> list E -> list E -> list E -> list E -> list E -> list E) (ppolys : list (list B))
+           (exemptions : nat) (tcoef : list E) (main_groups : list BGm) (aux_groups : list BGa) 
+           (rands : list E) (tpolys : list (list B)) (apolys : list (list E)),
+         (forall g : BGm, In g main_groups -> dv_ex (gm_div g) = []) /\
+         (forall g : BGa, In g aux_groups -> dv_ex (ga_div g) = []) ->
+         (forall (g : BGm) (c : BCm), In g main_groups -> In c (gm_cs g) -> m_col c < length tpolys) ->
+         (forall (g : BGa) (c : BCa), In g aux_groups -> In c (ga_cs g) -> a_col c < length apolys) ->
+         (forall cur nxt pv : list E, length (tmainE cur nxt pv) = num_main) ->
+         forall z : E,
+         let tE := map (map emb) tpolys in
+         evaluate_constraints_mixed OB OE emb n rou num_main num_aux tmainE tauxE ppolys exemptions tcoef main_groups
+           aux_groups rands (def_cur OE tE z) (def_nxt OE n (fun m : nat => emb (rou m)) tE z)
+           (Some (def_acur OE apolys z, def_anxt OE n (fun m : nat => emb (rou m)) apolys z)) z =
+         Some
+           (comp_def OE n (fun m : nat => emb (rou m)) tmainE tauxE (map (map emb) ppolys) exemptions tcoef
+              (map (embG emb) main_groups) (map (embGa emb) aux_groups) rands true tE apolys z).
+Proof. exact @verifier_evaluate_constraints_ext. Qed.
+Print Assumptions C17_verifier_evaluate_constraints_ext.
 
 (* ---- non-vacuity: each theorem above instantiated in the 64-bit field with ALL hypotheses discharged
         (Proofs/CompositionExamples.v).  Instance A: trace length 2, ce blowup 2, a periodic column, an auxiliary column,
